@@ -7,6 +7,9 @@
 
 #include <tinyformat.h>
 
+#include <cstdlib>
+#include <limits>
+
 extern const HashWriter HASHER_TAPSIGHASH;
 static const HashWriter HASHER_TAPTWEAK = TaggedHash("TapTweak");
 
@@ -409,12 +412,33 @@ bool StepExtended(ScriptExecutionEnvironment& env, CScript::const_iterator& pc, 
         {
             CScriptNum num1(vch1, env.fRequireMinimal, 5);
             CScriptNum num2(vch2, env.fRequireMinimal, 5);
+            const int64_t a = num1.GetInt64();
+            const int64_t b = num2.GetInt64();
+            const int64_t max = std::numeric_limits<int64_t>::max();
             switch (env.opcode) {
-            case OP_MUL: num1 = num1 * num2; break;
-            case OP_DIV: num1 = num1 / num2; break;
-            case OP_MOD: num1 = num1 % num2; break;
-            case OP_LSHIFT: num1 = num1 << num2; break;
-            case OP_RSHIFT: num1 = num1 >> num2; break;
+            case OP_MUL:
+                // operands are at most 5 bytes, so std::abs is safe; the product must fit
+                if (b != 0 && std::abs(a) > max / std::abs(b)) return set_error(serror, SCRIPT_ERR_UNKNOWN_ERROR);
+                num1 = num1 * num2;
+                break;
+            case OP_DIV:
+                if (b == 0) return set_error(serror, SCRIPT_ERR_UNKNOWN_ERROR);
+                num1 = num1 / num2;
+                break;
+            case OP_MOD:
+                if (b == 0) return set_error(serror, SCRIPT_ERR_UNKNOWN_ERROR);
+                num1 = num1 % num2;
+                break;
+            case OP_LSHIFT:
+                // a * 2^b: the count must be 0..63 and the result must fit
+                if (b < 0 || b > 63 || std::abs(a) > (max >> b)) return set_error(serror, SCRIPT_ERR_UNKNOWN_ERROR);
+                num1 = CScriptNum(a == 0 ? 0 : a * (int64_t(1) << b));
+                break;
+            case OP_RSHIFT:
+                // floor(a / 2^b)
+                if (b < 0 || b > 63) return set_error(serror, SCRIPT_ERR_UNKNOWN_ERROR);
+                num1 = CScriptNum(a >> b);
+                break;
             default: assert(0);
             }
             vch1 = num1.getvch();
